@@ -578,6 +578,16 @@ fn real_names(module: &ir::Module, reserved: &[String], intr: bool) -> Vec<(Key,
             module.enum_registry.get_enum_definition(ir::EnumId(i)).name.node.clone(),
         ));
     }
+    // enum values are symbols of the scope that contains their enum
+    for i in 0..module.enum_registry.get_enum_count() {
+        for (j, vid) in module.enum_registry.get_values(ir::EnumId(i)).iter().enumerate() {
+            out.push((
+                ('V', i as usize, j),
+                nm.get_name_qualified(NameSymbol::EnumValue(*vid)).0,
+                module.enum_registry.get_enum_value(*vid).name.node.clone(),
+            ));
+        }
+    }
     let mut k = 0;
     for i in 0..module.global_registry.len() {
         if module.global_registry[i].is_intrinsic {
@@ -1013,6 +1023,18 @@ fn source_scope_names(t: &Table, e: &Ent) -> Vec<String> {
         }
         let same = match (e.key.0, o.key.0) {
             ('L', 'L') => o.owner == e.owner,
+            // the names visible inside a function body: everything declared in the function's namespace or an
+            // enclosing one (a local that shares such a name is not "unique in its scope": one of the two has to
+            // be renamed when the other is used in the body)
+            ('L', k) if "NSEGFV".contains(k) => {
+                let fns = e.owner.and_then(|f| t.get(('F', f, 0))).and_then(|f| f.owner);
+                let chain = t.ns_path(fns);
+                let decl = if k == 'V' { enum_parent(t, o).unwrap_or(None) } else { o.owner };
+                match decl {
+                    None => true,
+                    Some(n) => chain.contains(&n),
+                }
+            }
             ('M', 'M') => o.owner == e.owner,
             ('V', 'V') => o.owner == e.owner || enum_parent(t, o) == enum_parent(t, e),
             ('V', k) if "NSEGF".contains(k) => enum_parent(t, e) == Some(o.owner),
@@ -1067,7 +1089,20 @@ fn run_case(target: &str, prog: &str, cx: &mut Ctx, out: &mut Out) {
             return;
         }
     };
-    let obs: Vec<String> = names.iter().map(|(k, q, _)| format!("{}{}={}", k.0, k.1, q.join("::"))).collect();
+    let mut nv = 0;
+    let obs: Vec<String> = names
+        .iter()
+        .map(|(k, q, _)| {
+            // enum values are numbered through all enums (EnumValueId order)
+            let ord = if k.0 == 'V' {
+                nv += 1;
+                nv - 1
+            } else {
+                k.1
+            };
+            format!("{}{}={}", k.0, ord, q.join("::"))
+        })
+        .collect();
     let obs = obs.join(" ");
     // the descriptor's ordinal convention against the registries
     for (k, _, srcname) in &names {
@@ -1080,7 +1115,7 @@ fn run_case(target: &str, prog: &str, cx: &mut Ctx, out: &mut Out) {
             }
         }
     }
-    let n_named = table.ents.iter().filter(|e| "NSEGFL".contains(e.key.0)).count();
+    let n_named = table.ents.iter().filter(|e| "NSEVGFL".contains(e.key.0)).count();
     if n_named != names.len() {
         cx.hist.add("skip:registry size differs");
         out.case(&req, &obs, "SKIP:registry size differs from descriptor");
@@ -1099,7 +1134,8 @@ fn run_case(target: &str, prog: &str, cx: &mut Ctx, out: &mut Out) {
     }
     for a in &table.ents {
         for b in &table.ents {
-            if a.key < b.key && "NSEGF".contains(a.key.0) && "NSEGF".contains(b.key.0) && a.owner == b.owner && leaf[&a.key] == leaf[&b.key] {
+            let scope_of = |e: &Ent| if e.key.0 == 'V' { enum_parent(&table, e).unwrap_or(None) } else { e.owner };
+            if a.key < b.key && "NSEVGF".contains(a.key.0) && "NSEVGF".contains(b.key.0) && scope_of(a) == scope_of(b) && leaf[&a.key] == leaf[&b.key] {
                 fails.insert(format!("dup-namemap:{} | NameMap::build names {} and {} both '{}' in one scope", target, show_key(a.key), show_key(b.key), leaf[&a.key]));
             }
         }
